@@ -840,10 +840,15 @@ func (p *Parser) evaluateImport() (evaluatedImport, error) {
 		return evaluatedImport{}, p.expectedError("import path", nextToken)
 	}
 	path := nextToken.Value()
-	nextToken = p.eat()
+	nextToken = p.peek()
 
 	if !slices.Contains([]lexer.TokenType{lexer.NEWLINE, lexer.EOF}, nextToken.Type()) {
 		return evaluatedImport{}, p.expectedError("newline or end-of-file", nextToken)
+	}
+
+	// The end of the file is not consumed, the evaluation of the program stops at it.
+	if nextToken.Type() == lexer.NEWLINE {
+		p.eat()
 	}
 	return evaluatedImport{
 		alias,
